@@ -47,6 +47,7 @@ func c09Metrics(kind int, cached bool, withReport bool, preempt int) {
 				got[i] = g
 			case 2:
 				t := root.Timer("x")
+				t.Record(time.Duration(v))
 				got[i] = t
 			case 3:
 				h := root.Histogram("x", ValueBuckets{1})
@@ -94,6 +95,17 @@ func c09Metrics(kind int, cached bool, withReport bool, preempt int) {
 		}
 		if kind == 3 {
 			verifrt.Assert("c09.histogram-samples-delivered", samples == 2)
+		}
+		if kind == 2 {
+			var sumT int64
+			nT := 0
+			for _, c := range crec.calls {
+				if c.kind == "timer" && crec.allocs[c.alloc].name == "x" {
+					sumT += c.i
+					nT++
+				}
+			}
+			verifrt.Assert("c09.every-timer-value-reaches-the-cached-timer", verifrt.And(nT == 2, sumT == v1+v2))
 		}
 	} else {
 		var sumX, sumPre, samples int64
